@@ -87,10 +87,21 @@ def nf_pair(rec, cfg):
                            f"{abs(nv - nl) / nl:.1%} > 10%); Jdes={cfg['Jdes']}, N={cfg['N']}")
 
 
-def force_case(rec, N, fs, target, sched, olap, extra_kw):
+def force_case(rec, N, fs, target, sched, olap, extra_kw, wins=None):
+    """Forced bin count.  With `wins` (a list of window specs) the same request is made once per
+    window with olap='default' in the same process - each window resolves to a different
+    overlap, so a result that depends on an earlier forced plan is exposed."""
+    if wins:
+        from .. import api
+        for w in wins:
+            kw = dict(extra_kw)
+            kw.update(api.win_args(w))
+            force_case(rec, N, fs, target, sched, "default", kw)
+        return
     from speckit.analysis import SpectrumAnalyzer
     desc = {"kind": "force-nf", "N": N, "fs": fs, "target": target, "sched": sched,
-            "olap": olap, "kw": extra_kw}
+            "olap": olap, "kw": {k: (v if not callable(v) else getattr(v, "__name__", "win"))
+                                 for k, v in extra_kw.items()}}
     rec.case(desc, nontrivial=True)
     rec.count("force_nf_cases")
     try:
@@ -136,6 +147,10 @@ def run_shard(params, rec):
             kw = {"Kdes": int(rng.choice([10, 100])), "bmin": float(rng.choice([1.0, 2.0])),
                   "Lmin": int(rng.choice([1, 4]))}
             force_case(rec, N, fs, target, params["sched"], olap, kw)
+            if params["sched"] != "vectorized_ltf" or target <= 300:
+                wins = [{"kind": "kaiser", "psll": 200.0}, {"kind": "hann", "name": "hann"},
+                        {"kind": "kaiser", "psll": float(rng.choice([60.0, 120.0]))}]
+                force_case(rec, N, fs, target, params["sched"], "default", kw, wins=wins)
     elif kind == "corpus":
         for case in CORPUS:
             replay(case, rec)
@@ -146,7 +161,18 @@ def replay(case, rec):
         if c["kind"] == "nf-pair":
             nf_pair(r, c["cfg"])
         elif c["kind"] == "force-nf":
-            force_case(r, c["N"], c["fs"], c["target"], c["sched"], c["olap"], c["kw"])
+            kw = dict(c["kw"])
+            if kw.get("win") in ("kaiser", "hann", "hanning") or "win" not in kw:
+                if c["olap"] == "default":
+                    # replay the whole window group so that the history is reproduced
+                    base = {k: v for k, v in kw.items() if k not in ("win", "psll")}
+                    force_case(r, c["N"], c["fs"], c["target"], c["sched"], "default", base,
+                               wins=[{"kind": "kaiser", "psll": 200.0},
+                                     {"kind": "hann", "name": "hann"},
+                                     {"kind": "kaiser", "psll": 60.0},
+                                     {"kind": "kaiser", "psll": 120.0}])
+                else:
+                    force_case(r, c["N"], c["fs"], c["target"], c["sched"], c["olap"], kw)
         else:
             raise ValueError(c["kind"])
     planwork.replay_case(ID, case, rec, extra)
